@@ -477,7 +477,7 @@ func runCase(c caseSpec) (res caseResult, skip string) {
 			// a failed dial closes its connection before it returns: the broker's read ends at once
 			select {
 			case <-lg.done:
-			case <-time.After(300 * time.Millisecond):
+			case <-time.After(1200 * time.Millisecond):
 			}
 		}
 		return lg.isClosed()
